@@ -349,7 +349,7 @@ func (s *Seq) exec(op *Op) {
 	case "flush":
 		s.opFlush(op)
 	case "sleep":
-		s.W.Sleep(time.Duration(op.Ms) * time.Millisecond)
+		s.sleep(time.Duration(op.Ms) * time.Millisecond)
 	case "create":
 		s.opCreate(op)
 	case "await":
@@ -714,7 +714,7 @@ func (s *Seq) opCreate(op *Op) {
 		s.stat("create-async-cycle")
 		if op.Lid%2 == 0 {
 			// long enough for the flusher to notice that it is not wanted any more
-			s.W.Sleep(250 * time.Millisecond)
+			s.sleep(250 * time.Millisecond)
 		}
 	}
 	err := s.db.Create(rec0(), cfg.Schema())
@@ -907,7 +907,7 @@ func (s *Seq) opDrop() {
 		s.fail("read", "drop-left-files", "after Drop the database directory still holds %d entries", len(ents))
 	}
 	// let time pass: a flusher of a dropped collection must not bring anything back
-	s.W.Sleep(time.Duration(s.Cfg.TimeoutMs+200) * time.Millisecond)
+	s.sleep(time.Duration(s.Cfg.TimeoutMs+200) * time.Millisecond)
 	s.W.Settle()
 	if ents, ok := s.W.FS.RawList(s.Root); ok && len(ents) > 0 {
 		s.fail("read", "dropped-files-came-back", "some time after Drop the database directory holds %d entries again (first: %s)", len(ents), ents[0].Name)
@@ -919,4 +919,17 @@ func (s *Seq) opDrop() {
 	s.quiescent, s.smallDirty = true, false
 	s.stat("probe:drop-and-recreate")
 	s.lightReads("after-drop")
+}
+
+// sleep: the client stops calling for d of simulated time. Clock drift is off
+// meanwhile: drift stands for the time running code takes and lets a sleeping task
+// wake inside a call; with nobody calling, tasks that poll (every flusher of every
+// handle the history ever opened) must run at their nominal pace, or their own
+// count of elapsed time (the flusher adds up its 100 ms steps) falls behind the
+// clock by a factor that grows with the number of tasks, which no real system shows.
+func (s *Seq) sleep(d time.Duration) {
+	save := s.W.Drift
+	s.W.Drift = 0
+	s.W.Sleep(d)
+	s.W.Drift = save
 }
